@@ -1,5 +1,6 @@
 """C14 — aggregates do not depend on arrival order or on how input is batched."""
 import itertools
+import json
 import math
 
 import aglib
@@ -241,4 +242,27 @@ def explore(ctx):
     cov['evaluations'] += live['coverage']['evaluations']
     cov['rule'] += '; the same aggregations and chains of them fed in timed bursts to a live terminal, final table against the one-piece result'
     cov['known_classes_present'] = sorted(known_classes)
+    # a line that is not valid UTF-8 among ordinary ones, grouped on the TEXT of the lines: the groups of the ordinary lines
+    # are the same wherever the odd line stands and however the input is split (implementation alone)
+    good = [b'k=a; n=1\n', b'k=b; n=2\n', b'k=a; n=3\n', b'k=c; n=4\n', b'k=b; n=5\n']
+    bad = b'k=caf\xe9; n=9 \xff\xfe\n'
+    q = '* | parse "k=*;" as k | count by k'
+    ref = None
+    raw_checked = 0
+    for pos in range(len(good) + 1):
+        data = b''.join(good[:pos] + [bad] + good[pos:])
+        o = aglib.run_impl_one(q, data, 'json')
+        raw_checked += 1
+        try:
+            rows_ = json.loads(o['out'].decode('utf8', 'replace')) if o['out'].strip() else []
+            got = sorted((r['k'], r['_count']) for r in rows_ if r['k'] in ('a', 'b', 'c'))
+        except (ValueError, KeyError, TypeError):
+            got = None
+        if ref is None:
+            ref = got
+        if o['rc'] != 0 or got != [('a', 2), ('b', 2), ('c', 1)] or got != ref:
+            failures.append({'kind': 'spec', 'what': 'a line that is not UTF-8 at position %d changed the groups of the other lines: %r, expected a=2 b=2 c=1' % (pos, got),
+                             'payload': {'query': q, 'input_lines': [l.decode('latin-1') for l in good[:pos] + [bad] + good[pos:]], 'note': 'the odd line holds the bytes E9 FF FE (shown here as latin-1)'}})
+            break
+    cov['non_utf8_line_positions'] = raw_checked
     return {'coverage': cov, 'failures': failures, 'known_lines': known_lines}
